@@ -112,6 +112,43 @@ def _canon(gates):
     return out
 
 
+PROCESSORS = ["LinearSpinChain", "CircularSpinChain", "SCQubits", "DispersiveCavityQED"]
+
+
+def run_transpile(inp):
+    """second observation point: ModelProcessor.transpile (routing + resolve_gates(native_gates)) -> (status, gates, native set)"""
+    import qutip_qip.device as dev
+    try:
+        proc = getattr(dev, inp["processor"])(inp["N"])
+        qc = _mk_circuit(inp)
+    except Exception as e:
+        return ("unbuildable", repr(e), None)
+    try:
+        res = proc.transpile(qc)
+    except Exception as e:
+        return ("rejected", type(e).__name__ + ": " + str(e)[:80], list(proc.native_gates or []))
+    return ("ok", _canon(res.gates), list(proc.native_gates or []))
+
+
+def oracle_transpile(inp, impl):
+    fails = []
+    if impl[0] == "rejected":
+        fails.append(("transpile rejects a circuit of resolvable gates", impl[1], "decomposed circuit"))
+        return fails
+    out, native = impl[1], impl[2]
+    N = inp["N"]
+    try:
+        src = [[g[0], g[1], g[2], _canon_arg(_arg(g[3]))] for g in inp["gates"]]
+        if not np.allclose(_unitary(src, N), _unitary(out, N), atol=1e-9):
+            fails.append(("transpiled circuit has a different unitary", "differs", "equal unitaries, global phase included"))
+    except Exception as e:
+        fails.append(("transpiled circuit cannot be evaluated", repr(e), "a unitary"))
+    bad = sorted(set(g[0] for g in out if g[0] not in set(native) | {"GLOBALPHASE", "IDLE"}))
+    if bad:
+        fails.append(("transpiled circuit contains non-native gates", bad, sorted(native)))
+    return fails
+
+
 def run_impl(inp):
     """-> ("ok", canonical gate list) | ("rejected", exception text)"""
     try:
@@ -465,6 +502,25 @@ def gen_inputs(ctx):
     return inputs
 
 
+def gen_transpile(ctx):
+    rng = ctx.rng
+    out = []
+    one = ["X", "Y", "Z", "SNOT", "SQRTNOT", "PHASEGATE", "RX", "RY", "RZ"]
+    for _ in range(ctx.n(24, 160)):
+        N = rng.choice([2, 3])
+        gs = []
+        for _ in range(rng.randint(1, 4)):
+            if rng.random() < 0.6:
+                gs.append(mk_gate(rng.choice(one), [rng.randrange(N)], [], rng))
+            else:
+                i = rng.randrange(N - 1)
+                a, b = (i, i + 1) if rng.random() < 0.5 else (i + 1, i)
+                name = rng.choice(["CNOT", "CSIGN", "SWAP", "ISWAP"])
+                gs.append(mk_gate(name, [a, b], [], rng) if name in ("SWAP", "ISWAP") else mk_gate(name, [a], [b], rng))
+        out.append(dict(processor=rng.choice(PROCESSORS), N=N, gates=gs))
+    return out
+
+
 def load_corpus():
     out = []
     for p in sorted(glob.glob(os.path.join(VERIF, "corpus", "C03", "*.json"))):
@@ -520,14 +576,22 @@ def correspond(ctx):
             corr.disagree(inp, _show(impl), _show(model), "resolve_gates output differs from Model/Resolve.v")
         for what, obs, exp in oracle(inp, impl):
             corr.oracle_fail(inp, obs, exp, what)
+    for inp in gen_transpile(ctx):
+        impl = run_transpile(inp)
+        if impl[0] == "unbuildable":
+            continue
+        corr.tally("transpile")
+        corr.count(_key(inp), nontrivial=True)
+        for what, obs, exp in oracle_transpile(inp, impl):
+            corr.oracle_fail(inp, obs, exp, what)
     corr.extra["translated"] = {k: v for k, v in _gen.get("decompose", {}).items() if k in ("rules", "passes", "elim", "marker_to_temp", "str_basis_listified", "n_emits")}
     return corr
 
 
 def obligations(ctx):
-    # generated symbolic obligations: (gate kind x basis configuration) semantic checks + in-basis checks
-    # 512 configurations x 20 kinds (semantic), 92 valid configurations x 20 kinds (membership, success), 20 rule checks
-    return 20 * 512 + 2 * 20 * 92 + 20
+    # generated symbolic obligations behind the theorems: 1008 semantic checks (gate kind x canonical basis configuration, covering
+    # all 512 x 20 combinations through canon/agree), 92 valid configurations x 20 kinds for membership and for success, 20 rule checks
+    return 1008 + 2 * 20 * 92 + 20
 
 
 def classify(f):
@@ -548,6 +612,9 @@ def classify(f):
 
 
 def _fails(inp):
+    if "processor" in inp:
+        impl = run_transpile(inp)
+        return [] if impl[0] == "unbuildable" else oracle_transpile(inp, impl)
     impl = run_impl(inp)
     if impl[0] == "unbuildable":
         return []
